@@ -44,9 +44,27 @@ func resetHostStates() {
 }
 
 func hostModuleAttrs() map[string]ugo.Object {
+	hostStates = hostStates[:0] // one live module map per run (plus, after it, a second tenant's: hostModuleAttrsMore)
+	return hostModuleAttrsMore()
+}
+
+func hostModuleAttrsMore() map[string]ugo.Object {
 	st := &HostState{}
-	hostStates = append(hostStates[:0], st) // one live module map per run
+	hostStates = append(hostStates, st)
+	liveArr := ugo.Array{ugo.Int(1), ugo.Int(2), ugo.Int(3)}
 	return map[string]ugo.Object{
+		// reads the host's own array object, which scripts never get to write (they work on their VM's copy)
+		"arrsum": &ugo.Function{Name: "arrsum", Value: func(args ...ugo.Object) (ugo.Object, error) {
+			s := 0
+			for _, v := range liveArr {
+				if i, ok := v.(ugo.Int); ok {
+					s += int(i)
+				} else {
+					s += 1000
+				}
+			}
+			return ugo.Int(s), nil
+		}},
 		"state": st,
 		"sync":  &ugo.SyncMap{Value: ugo.Map{"a": ugo.Int(1)}},
 		"esync": &ugo.SyncMap{Value: ugo.Map{}},
@@ -73,7 +91,7 @@ func hostModuleAttrs() map[string]ugo.Object {
 		"str":    ugo.String("hostile\x00\xff"),
 		"empty":  ugo.String(""),
 		"bytes":  ugo.Bytes{0, 1, 2, 255},
-		"arr":    ugo.Array{ugo.Int(1), ugo.Int(2), ugo.Int(3)},
+		"arr":    liveArr,
 		"map":    ugo.Map{"k": ugo.Int(7)},
 		"nested": ugo.Map{"arr": ugo.Array{ugo.Int(0), ugo.Map{"deep": ugo.String("x")}}},
 		"double": &ugo.Function{Name: "double", Value: func(args ...ugo.Object) (ugo.Object, error) {
@@ -125,6 +143,27 @@ func newModuleMap(src []srcModule) *ugo.ModuleMap {
 		mm.AddSourceModule(m.Name, []byte(m.Src))
 	}
 	return mm
+}
+
+// newTenantModuleMap derives a second tenant's module map from mm: same names, but the builtin module "host" has other
+// contents (same attribute names and Go types; double triples, other scalars).
+func newTenantModuleMap(mm *ugo.ModuleMap) *ugo.ModuleMap {
+	mm2 := mm.Copy()
+	attrs := hostModuleAttrsMore()
+	attrs["double"] = &ugo.Function{Name: "double", Value: func(args ...ugo.Object) (ugo.Object, error) {
+		if len(args) != 1 {
+			return nil, ugo.ErrWrongNumArguments.NewError("want=1")
+		}
+		if v, ok := args[0].(ugo.Int); ok {
+			return v*3 + 1, nil
+		}
+		return nil, ugo.NewArgumentTypeError("first", "int", args[0].TypeName())
+	}}
+	attrs["str"] = ugo.String("second tenant")
+	attrs["int"] = ugo.Int(77)
+	attrs["map"] = ugo.Map{"k": ugo.Int(70)}
+	mm2.AddBuiltinModule("host", attrs)
+	return mm2
 }
 
 // fixedModules are small source modules used by corpus scripts.
